@@ -1,4 +1,4 @@
-"""U-SEPDIAG: separate::typecheck_single_package (whole) — C14: `check` / `build` see the name-resolution errors as well as the typer's."""
+"""U-SEPDIAG: separate::typecheck_single_package and its whole-program twin pipeline::typecheck_package (whole) — C14: `check` / `build` see the name-resolution errors as well as the typer's."""
 import re
 from vlib.gen import Unit, Fn, Adt, Raw
 
@@ -23,5 +23,13 @@ UNIT = Unit(
                          ("GlobalTypeEnv::new()", "global_type_env_new()", 1), (re.compile(r"\.clone\(\)"), ".vclone()", "*")],
            obligation="the returned diagnostics hold the resolver's errors and the typer's",
            contract="ensures r.3.errors() >= hir_errors(files, *deps_interfaces) + typer_errors(lowered(files, *deps_interfaces).0, lowered(files, *deps_interfaces).1, package@, deps_envs),"),
+        Fn(file="crates/compiler/src/pipeline/pipeline.rs", name="typecheck_package", ret="r",
+           pre_rewrites=[("package_id: hir::PackageId,", "package_id: PackageId,", 1), ("package: &packages::PackageUnit,", "package: &PackageUnit,", 1),
+                         ("deps_envs: HashMap<String, GlobalTypeEnv>,", "deps_envs: EnvMap,", 1), ("deps_interfaces: &HashMap<String, hir::PackageInterface>,", "deps_interfaces: &IfaceMap,", 1),
+                         ("hir::lower_to_hir_files_with_env(", "lower_to_hir_files_with_env(", 1), ("hir::PackageInterface::from_hir(", "interface_from_hir(", 1),
+                         ("typer::check_file_with_env(", "check_file_with_env(", 1), ("GlobalTypeEnv::new()", "global_type_env_new()", 1), ("&package.name,", "string_as_str(&package.name),", 1),
+                         ("interface: PackageInterface {", "interface: PkgInterface {", 1), (re.compile(r"\.clone\(\)"), ".vclone()", "*")],
+           obligation="the whole-program driver's per-package step returns the resolver's errors and the typer's — the same statement as for the separate driver",
+           contract="ensures r.diagnostics.errors() >= hir_errors(package.files, *deps_interfaces) + typer_errors(lowered(package.files, *deps_interfaces).0, lowered(package.files, *deps_interfaces).1, package.name@, deps_envs),"),
     ],
 )
